@@ -213,3 +213,47 @@ Example C12_hc_chain_nonvacuous :
   strict_valid ex_dict (ex_cout ex_cst1 (CContinue 3000 78 200)) = Some ex_b1 /\
   strict_valid [] (ex_cout ex_cst1 (CContinue 3000 78 200)) = None.
 Proof. exact (conj ex_m_ok ex_cresults). Qed.
+
+(* ================================================================ HC, levels 10..12 (optimal parser; instance for levels 3..12)
+   - C12_hc_opt_loadDict / _loadDict_roundtrip / _attach_roundtrip: the statements of the C12_hc_chain_* theorems for
+     Model/HcOptStream.v (LZ4_loadDictHC is the same code for lz4hc and lz4opt: LZ4HC_Insert; it also clears favorDecSpeed). *)
+From LZ4V Require Import Model.HcOpt Model.HcOptApi Model.HcTabStream Model.HcOptStream Proofs.HcTabStreamProofs Proofs.HcOptStreamProofs Proofs.HcOptStreamExamples.
+
+Theorem C12_hc_opt_loadDict :
+  forall m c a n c' r,
+  0 <= n -> 0 <= a -> os_loadDict m c a n = Some (c', r) ->
+  ts_ok c' /\ d_ok (ts_core c') /\ kc_ok (ts_core c') (ts_chain c') /\ hs_dctx (ts_hs c') = None /\ r = Z.min n K64 /\
+  k_prefixStart (ts_core c') = a + n - r /\ k_end (ts_core c') = a + n /\
+  k_dictLimit (ts_core c') = K64 /\ k_lowLimit (ts_core c') = K64 /\ k_dirty (ts_core c') = false /\
+  lvl_all (k_level (ts_core c')) = true.
+Proof. exact os_loadDict_ok. Qed.
+Print Assumptions C12_hc_opt_loadDict.
+
+Theorem C12_hc_opt_loadDict_roundtrip :
+  forall m c a n c' r src k cap ret consumed out hw c'',
+  hmem_ok m -> 0 <= n -> 0 <= a -> 0 < src -> 0 <= k < 2147483648 -> 0 <= cap ->
+  os_loadDict m c a n = Some (c', r) ->
+  os_continue m c' src k cap = Some (TRes ret consumed out hw c'') ->
+  (compressBound k <= cap -> k <= LZ4_MAX_INPUT_SIZE -> 0 < ret) /\
+  (0 < ret -> ret = Z.of_nat (length out) /\ ret <= Z.max cap (compressBound k) /\ consumed = k /\
+              win_strict (load_list m a (Z.to_nat n)) out (load_list m src (Z.to_nat k))).
+Proof. exact os_loadDict_roundtrip. Qed.
+Print Assumptions C12_hc_opt_loadDict_roundtrip.
+
+Theorem C12_hc_opt_attach_roundtrip :
+  forall m c0 d a n dc r src k cap ret consumed out hw c'',
+  hmem_ok m -> ts_ok c0 -> k_dirty (ts_core c0) = false -> k_prefixStart (ts_core c0) = 0 ->
+  0 <= n -> 0 <= a -> 0 < src -> 0 <= k < 2147483648 -> 0 <= cap ->
+  os_loadDict m d a n = Some (dc, r) ->
+  os_continue m (ts_attach c0 (Some dc)) src k cap = Some (TRes ret consumed out hw c'') ->
+  (compressBound k <= cap -> k <= LZ4_MAX_INPUT_SIZE -> 0 < ret) /\
+  (0 < ret -> ret = Z.of_nat (length out) /\ ret <= Z.max cap (compressBound k) /\ consumed = k /\
+              win_strict (load_list m a (Z.to_nat n)) out (load_list m src (Z.to_nat k))).
+Proof. exact os_attach_roundtrip. Qed.
+Print Assumptions C12_hc_opt_attach_roundtrip.
+
+Example C12_hc_opt_nonvacuous :
+  hmem_ok ex_m /\
+  strict_valid ex_dict (ex_oout ex_ost1 (TContinue 3000 78 200)) = Some ex_b1 /\
+  strict_valid [] (ex_oout ex_ost1 (TContinue 3000 78 200)) = None.
+Proof. exact (conj ex_m_ok ex_oresults). Qed.
